@@ -27,6 +27,8 @@ def check(chk, thorough=False):
     chk.run('C01.j', 'R-FLOW', 'the send entry queues a file over exactly the octets passed in (byte-array conversion only)', lambda ob: __import__('sa.props.common', fromlist=['entry_fidelity']).entry_fidelity(tree, ob, 'tcpcl/session.py', 'ContactHandler.send_bundle_data'), floor=1)
     chk.run('C01.l', 'R-PAIR', 'octets that follow a message in the same read are the next message: every probe class strips the padding layer (= C07.g)', lambda ob: __import__('sa.props.c07', fromlist=['c07g']).c07g(tree, ob), floor=3)
     chk.run('C01.k', 'R-NOPATH', 'a readable socket is read: the receive callback has no path back to the event loop that skips recv() and asks to be called again (the watch is level-triggered; not reading means spinning, and with both ends waiting to write first, deadlock)', lambda ob: c01k(tree, ob), floor=1)
+    chk.run('C01.m', 'R-FLOW', 'a peer message about one transfer never interrupts another: the transfer being sent is torn down only when it is the one named (= C17.e)', lambda ob: __import__('sa.props.c17', fromlist=['c17e']).c17e(tree, ob), floor=4)
+    chk.run('C01.n', 'R-NOPATH', 'a message that is still arriving is waited for: the partial arm of the receive loop leaves buffer, state and connection alone (= C07.a)', lambda ob: __import__('sa.props.c07', fromlist=['c07a']).c07a(tree, ob), floor=4)
     chk.run('C01.i', 'R-GUARD', 'back-pressure is not taken for a dead connection: a send that would block keeps the octets and the connection', lambda ob: c01i(tree, ob), floor=2)
     chk.run('C01.g', 'R-WHO', 'the active-transfer state of each direction is written only by its own setup / teardown / pump functions', lambda ob: c01g(tree, ob), floor=6)
     chk.run('C01.h', 'R-SCHEMA', 'segment data and extension lengths are verified against what was read, also when empty (= C07.c)', lambda ob: _c07c(tree, ob), floor=6)
